@@ -193,8 +193,13 @@ func (s *Stream) reset() {
 }
 
 func (s *Stream) readBuf() []byte {
-	if s.filledBuffer {
+	// the window also grows in place when an invalid byte is replaced by U+FFFD:
+	// it can be longer than bufSize, and it can be full without a read having filled it
+	if s.filledBuffer || int64(len(s.buf))-s.length < 2 {
 		s.bufSize *= 2
+		if need := int64(len(s.buf)) * 2; s.bufSize < need {
+			s.bufSize = need
+		}
 		remainBuf := s.buf
 		s.buf = make([]byte, s.bufSize)
 		copy(s.buf, remainBuf)
